@@ -316,6 +316,48 @@ def t_unrelated_members(tree):
     return True
 
 
+def t_ifexp_to_stmt(tree):
+    """x = a if c else b  ->  if c: x = a / else: x = b   (simple-name targets only)"""
+    for fn in [n for n in ast.walk(tree) if isinstance(n, ast.FunctionDef)]:
+        for b in list(_stmt_lists(fn)):
+            for i, st in enumerate(list(b)):
+                if isinstance(st, ast.Assign) and len(st.targets) == 1 and isinstance(st.targets[0], ast.Name) and isinstance(st.value, ast.IfExp):
+                    t = st.targets[0]
+                    new = ast.If(st.value.test, [ast.Assign([ast.Name(t.id, ast.Store())], st.value.body, lineno=st.lineno)],
+                                 [ast.Assign([ast.Name(t.id, ast.Store())], st.value.orelse, lineno=st.lineno)])
+                    b[b.index(st)] = ast.copy_location(new, st)
+    return True
+
+
+def t_neq_spelling(tree):
+    """a != b -> not a == b ; a == b kept"""
+    class T(ast.NodeTransformer):
+        def visit_Compare(self, node):
+            self.generic_visit(node)
+            if len(node.ops) == 1 and isinstance(node.ops[0], ast.NotEq):
+                return ast.copy_location(ast.UnaryOp(ast.Not(), ast.Compare(node.left, [ast.Eq()], node.comparators)), node)
+            return node
+    T().visit(tree)
+    return True
+
+
+def t_expand_augassign(tree):
+    """x += y -> x = x + y   for simple names and self attributes (no subscripts: evaluation order of the index stays untouched)"""
+    class T(ast.NodeTransformer):
+        def visit_AugAssign(self, node):
+            self.generic_visit(node)
+            t = node.target
+            if isinstance(t, ast.Name) or (isinstance(t, ast.Attribute) and isinstance(t.value, ast.Name)):
+                load = copy.deepcopy(t)
+                for n in ast.walk(load):
+                    if hasattr(n, "ctx"):
+                        n.ctx = ast.Load()
+                return ast.copy_location(ast.Assign([t], ast.BinOp(load, node.op, node.value)), node)
+            return node
+    T().visit(tree)
+    return True
+
+
 SILENT_GLOBAL = [
     ("unparse round trip", t_roundtrip),
     ("method order reversed", t_reverse_methods),
@@ -323,6 +365,9 @@ SILENT_GLOBAL = [
     ("//8,%8 spelled as >>3,&7; range(0,n)<->range(n)", t_shift_spelling),
     ("temporaries for subscript indices", t_temporaries),
     ("unrelated public method added to every class", t_unrelated_members),
+    ("conditional expressions written as if/else statements", t_ifexp_to_stmt),
+    ("!= spelled as not ==", t_neq_spelling),
+    ("augmented assignments expanded", t_expand_augassign),
 ]
 
 
